@@ -25,12 +25,13 @@ CONST = ['CONSTANTS Paths = {"w1","w2","w3"} Entries = {"whole","eA","eB"} NoPat
 
 
 def workbooks():
-    """Three small workbooks; 'Main' is sheet 0 everywhere so that entry identifiers have one meaning.
+    """Three small workbooks. 'Main' is sheet 0 in w1 and w3 but sheet 1 in w2: an entry given by title (eA) and an entry given by
+    numbers (eB) keep the meaning of their identifiers, whatever was translated before.
     w3 contains a python-like constant, so translating it raises iff the safety check is on."""
     w1 = [('Main', {(0, 0): '=B1+Data!A1', (1, 0): 5, (1, 1): '=SUM(A1:B1)*2', (2, 2): 'x'}),
           ('Data', {(0, 0): 7, (0, 1): '=A1*3'})]
-    w2 = [('Main', {(0, 0): '=B1*Other!A2', (1, 0): 11, (1, 1): '=A1-B1', (0, 3): 2.5}),
-          ('Other', {(0, 0): 1, (0, 1): 13}), ('Data', {(0, 0): 3})]
+    w2 = [('Other', {(0, 0): 1, (0, 1): 13, (1, 1): '=A1+A2'}),
+          ('Main', {(0, 0): '=B1*Other!A2', (1, 0): 11, (1, 1): '=A1-B1', (0, 3): 2.5}), ('Data', {(0, 0): 3})]
     w3 = [('Main', {(0, 0): '=B1&"z"', (1, 0): 'q', (1, 1): '=IF(B1="q",1,2)', (3, 0): 'eval(1)'}),
           ('Data', {(0, 0): 9})]
     return {'w1': w1, 'w2': w2, 'w3': w3}
@@ -41,9 +42,9 @@ def entry_cell(e, style=0):
     if e == 'whole':
         return None
     if e == 'eA':
-        return Cell('Main', 'A', '1') if style == 0 else Cell(0, 0, 0)
+        return Cell('Main', 'A', '1')          # by title and A1 address
     if e == 'eB':
-        return Cell(0, 1, 1) if style == 0 else Cell('Main', 'B', '2')
+        return Cell(0, 1, 1)                   # by numbers: sheet 0, column B, row 2
     raise ValueError(e)
 
 
